@@ -7,12 +7,13 @@ META = {
                    'script within the bound; the user function is an uninterpreted function so the result '
                    'term identifies exactly the folded items and their order. The builders (fold, reduce, fold_assoc, '
                    'reduce_assoc, group_by_fold/reduce/sum/count/min/max, group_by + fold/reduce) are executed from MIR into a '
-                   'logical plan which is evaluated over symbolic values spread over the replicas (props/plan.py).',
-    'assumptions': ['user functions are pure'],
+                   'logical plan which is evaluated over symbolic values spread over the replicas (props/plan.py). Keyed rich_map: the '
+                   'state of the user function (a call counter per clone) is per key and sees exactly the earlier elements of its key.',
+    'assumptions': ['user functions of the aggregations are pure'],
     'trusted': ['mirsym MIR executor and its std model table', 'z3 / cvc5'],
 }
 
 
 def TASKS(tier):
     return fold_tasks(tier, 'fold') + keyed_fold_tasks(tier, 'keyed_fold') + two_phase_tasks(tier, 'two_phase') + \
-        agg_plan_tasks(tier, 'agg_plan')
+        agg_plan_tasks(tier, 'agg_plan') + rich_map_tasks(tier, 'rich_map')
